@@ -80,9 +80,16 @@ def generate(seed: int, tier: str) -> dict:
             case["law"] = "none"
             return case
         p1, p2 = rng.sample(leafs, 2)
+        v1, v2 = og.fresh_value(), og.fresh_value()
+        if rng.random() < 0.25:
+            # one of the two values spans several lines: the layout switch of its set must not depend on the order
+            base = (seed % 9000 + 1000) * 1000 + 77
+            v2 = rng.choice(["[\n  %d\n  %d\n]", "{\n  k = %d;\n  j = %d;\n}"]) % (base, base + 1)
+            if len(p1) > len(p2):
+                p1, p2 = p2, p1  # the multi-line value goes to the deeper path
         case["ops"] = [
-            {"op": "set", "path": gen.npath(depth, p1), "value": og.fresh_value()},
-            {"op": "set", "path": gen.npath(depth, p2), "value": og.fresh_value()},
+            {"op": "set", "path": gen.npath(depth, p1), "value": v1},
+            {"op": "set", "path": gen.npath(depth, p2), "value": v2},
         ]
     return case
 
